@@ -51,6 +51,7 @@ def digest (s : St) (univ : List String) : Json :=
     ("tc", Json.mkObj (univ.map (fun n => (n, natJ (s.tableCtr n))))),
     ("nc", Json.mkObj (univ.map (fun n => (n, natJ (s.nickCtr n))))),
     ("lc", Json.mkObj (univ.map (fun n => (n, natJ (s.localCtr n))))),
+    ("ln", Json.mkObj (univ.map (fun n => (n, natJ (s.localNick n))))),
     ("nrows", natJ s.rows.length)]
 
 def rangeJ (pr : PickRange) : List Json :=
